@@ -1,4 +1,5 @@
 mod c01;
+mod c03;
 mod plonkrun;
 mod rec;
 mod shapes;
@@ -20,6 +21,7 @@ fn main() {
     let rest = &args[2..];
     let code = match args[1].as_str() {
         "c01" => c01::main(rest),
+        "c03" => c03::main(rest),
         "randshape" => {
             let seed: u64 = rest[0].parse().unwrap();
             println!("{}", serde_json::to_string(&shapes::random_shape(seed)).unwrap());
